@@ -125,8 +125,8 @@ class Gen:
     def spike(self):
         r = self.r
         m = "average" if r.random() < 0.5 else "differential"
-        if r.random() < 0.03:
-            m = "bogus"
+        if r.random() < 0.05:
+            m = r.choice(["bogus", "Average", "DIFFERENTIAL", "avg", "diff", "average ", ""])     # exactly the two names
         return mk("spike", x=self.series(self.length()), p={"st": r.choice(THR), "ft": r.choice(THR), "method": m})
 
     def roc(self):
